@@ -5,6 +5,10 @@ from props import smr_common as S
 
 
 def run(ctx):
+    # Tier B: DHP.tla (guards in extension blocks, retired array of blocks, record reuse); refuted: seeded change C02 (scan copies only the first
+    # initial_capacity_ slots of an extension guard block)
+    vlib.model_check_many(ctx, [dict(module_rel="smr/DHPMC.tla", cfg_rel="smr/DHP_q.cfg" if ctx.quick() else "smr/DHP_t.cfg", workers=4, timeout=3000),
+                                dict(module_rel="smr/DHPMC.tla", cfg_rel="smr/DHP_bad_ExtBound.cfg", workers=2, expect_violation="Assert")], par=2)
     n = 1 if ctx.quick() else 6
     small = ["dhp_k4", "dhp_k2"]
     big = ["dhp_k24_init4", "dhp_k40_init16"]
